@@ -413,6 +413,52 @@ example :
     (runWithoutInit S r2.W r2.progs false (idSched Nat) 3 (runHistory S [r1] (initSt []))).ts.length = 20 := by
   decide +kernel
 
+/-! ### the extrapolation of the estimated emissions to unmeasured sites -/
+
+/-- a measured site counts with its own annual value -/
+theorem contribution_measured (info : List SiteInfo) (x : SiteInfo) (h : x.2.2.1 = true) :
+    contribution info x = x.2.2.2 := by
+  simp [contribution, h]
+
+/-- an unmeasured site of a type with measured sites gets the average over the measured sites of
+that type -/
+theorem contribution_same_type (info : List SiteInfo) (x : SiteInfo) (h : x.2.2.1 = false)
+    (hs : ((measuredSites info).filter fun y => y.2.1 == x.2.1) ≠ []) :
+    contribution info x
+      = sumR (((measuredSites info).filter fun y => y.2.1 == x.2.1).map (·.2.2.2))
+        / ((((measuredSites info).filter fun y => y.2.1 == x.2.1).map (·.2.2.2)).length : Rat) := by
+  have : ((measuredSites info).filter fun y => y.2.1 == x.2.1).isEmpty = false := by
+    cases hh : (measuredSites info).filter fun y => y.2.1 == x.2.1 with
+    | nil => exact absurd hh hs
+    | cons _ _ => rfl
+  simp only [contribution, h, Bool.false_eq_true, if_false, this, meanR]
+
+/-- the fall-back: an unmeasured site whose type has no measured site gets the sum over ALL measured
+sites divided by the NUMBER OF measured SITES -/
+theorem contribution_fallback (info : List SiteInfo) (x : SiteInfo) (h : x.2.2.1 = false)
+    (hs : ((measuredSites info).filter fun y => y.2.1 == x.2.1) = []) (hm : measuredSites info ≠ []) :
+    contribution info x
+      = sumR ((measuredSites info).map (·.2.2.2)) / (((measuredSites info).map (·.2.2.2)).length : Rat) := by
+  have : (measuredSites info).isEmpty = false := by
+    cases hh : measuredSites info with
+    | nil => exact absurd hh hm
+    | cons _ _ => rfl
+  simp only [contribution, h, Bool.false_eq_true, if_false, hs, List.isEmpty_nil, if_true, this, meanR]
+
+/-- the other reading of "average of all measured sites": the unweighted mean of the per-type means -/
+def meanOfTypeMeans (info : List SiteInfo) : Rat :=
+  let types := dedup ((measuredSites info).map (·.2.1))
+  meanR (types.map fun t => meanR (((measuredSites info).filter fun y => y.2.1 == t).map (·.2.2.2)))
+
+/-- the two readings differ: type 0 with measured sites 100, 200, 300, type 1 with one measured site
+1000, type 2 with one unmeasured site.  The model (and the code) gives the unmeasured site
+1600 / 4 = 400; the mean of the type means would be (200 + 1000) / 2 = 600 -/
+theorem fallback_is_not_mean_of_type_means :
+    ∃ (info : List SiteInfo) (x : SiteInfo), x ∈ info ∧ x.2.2.1 = false ∧
+      contribution info x = 400 ∧ meanOfTypeMeans info = 600 ∧ extrapolateInfo info = 2000 := by
+  refine ⟨[(1, 0, true, 100), (2, 0, true, 200), (3, 0, true, 300), (4, 1, true, 1000), (5, 2, false, 0)],
+    (5, 2, false, 0), ?_, rfl, ?_, ?_, ?_⟩ <;> decide +kernel
+
 /-! ### batching -/
 
 /-- the batch sizes add up to the number of simulations -/
